@@ -52,6 +52,9 @@ pub enum TOp {
     /// fails (every mprotect of that page is refused from then on): the drop panics half-way;
     /// the holder has let go all the same and a waiting thread must get its turn
     InjectorRestoreFault { calls: u8 },
+    /// a preventer held for `ms` milliseconds (calling the shared function all the while): the
+    /// waiters wait that long
+    PreventerHold { ms: u16 },
 }
 
 #[derive(Serialize, Deserialize, Clone, Debug, Hash, PartialEq, Eq)]
@@ -191,6 +194,30 @@ fn run_op(t: usize, op: &TOp, foreign: &std::sync::Mutex<Vec<String>>) -> Result
             ip::MPROTECT_FAIL_PAGE.store(0, SeqCst);
             Ok(())
         }
+        TOp::PreventerHold { ms } => {
+            let r = std::panic::catch_unwind(|| {
+                if HOLDERS.load(SeqCst) > 0 {
+                    CONTENDED.fetch_add(1, SeqCst);
+                }
+                let p = ip::sut(InjectorPP::prevent);
+                let _h = Holding::enter();
+                let t0 = std::time::Instant::now();
+                while t0.elapsed() < std::time::Duration::from_millis(*ms as u64) {
+                    let v = shared_fn();
+                    if v != 7 {
+                        foreign.lock().unwrap().push(format!("thread {t} holding a preventer for {ms} ms saw {v} instead of the original 7 after {} ms", t0.elapsed().as_millis()));
+                        break;
+                    }
+                    std::thread::sleep(std::time::Duration::from_millis(1));
+                }
+                drop(_h);
+                drop(p);
+            });
+            match r {
+                Err(_) => Err(format!("thread {t}: preventer operation panicked: {}", crate::worker::last_panic())),
+                Ok(()) => Ok(()),
+            }
+        }
         TOp::Spin(k) => {
             for _ in 0..*k {
                 std::hint::spin_loop();
@@ -297,7 +324,8 @@ pub fn execute(c: &ThreadCase) -> ThreadObs {
     crate::worker::phase("threads");
     let mut finished = vec![false; n];
     let mut tids = vec![0i64; n];
-    let deadline = std::time::Instant::now() + std::time::Duration::from_secs(10);
+    let longest_hold: u64 = c.scripts.iter().flatten().map(|op| if let TOp::PreventerHold { ms } = op { *ms as u64 } else { 0 }).sum();
+    let deadline = std::time::Instant::now() + std::time::Duration::from_millis(10_000 + longest_hold);
     loop {
         let left = deadline.saturating_duration_since(std::time::Instant::now());
         match rx.recv_timeout(left) {
@@ -346,6 +374,7 @@ pub fn execute(c: &ThreadCase) -> ThreadObs {
                 TOp::Preventer { exit_panic: true, .. } => "preventer/panic",
                 TOp::Spin(_) => "spin",
                 TOp::InjectorRestoreFault { .. } => "injector/restoration-fault",
+                TOp::PreventerHold { .. } => "preventer/drop",
             });
         }
     }
